@@ -1102,7 +1102,7 @@ def values_equal(D, ty: str, v, w) -> Optional[str]:
                  "Date": ["year", "month", "day", "zone"], "Time": ["hour", "minute", "second", "microsecond", "zone"]}.get(ty)
         idx = [i for i, (x, y) in enumerate(zip(a, b)) if x != y]
         if names:
-            return "+".join(names[i] for i in idx)
+            return names[idx[0]] if len(idx) == 1 else "several-fields"
         return "zone" if idx == [len(a) - 1] else "field"
     return "value"
 
